@@ -402,3 +402,25 @@ Print Assumptions axis_to_num_is_source.
 Theorem invert_axis_is_source : forall a, invert_axis (axis_str a) = inl (axis_str (other a)).
 Proof. exact invert_axis_bridge. Qed.
 Print Assumptions invert_axis_is_source.
+
+(* ---- tie to the source: compute_counts_per_sample_stats as tools/py2v_sum regenerates it from
+   biom/util.py on every check (Gen/SummaryGen.v over the vocabulary Gen/SumPrelude.v) is the hand
+   model r_stats: per sample the number of non-zero cells (qualitative) or the total (quantitative),
+   kept in a dict in table order, then min / max / median / mean of its values, zeros when there is
+   no sample.  Partial: the source keeps the counts in a dict keyed by sample id, the hand model lists
+   one entry per sample; the two agree when the sample ids are distinct and the representation has one
+   vector per sample id - both are parts of wf_r, which every theorem above assumes. *)
+From BiomV Require Import Gen.SumPrelude Gen.SummaryGen Proofs.GenBridgeSummaryProofs.
+Theorem counts_per_sample_stats_is_source_partial : forall binary rt, NoDup (r_sids rt) -> dims_ok rt ->
+  compute_counts_per_sample_stats rt binary = r_stats binary rt.
+Proof. exact counts_per_sample_stats_bridge_partial. Qed.
+Print Assumptions counts_per_sample_stats_is_source_partial.
+
+(* the hypotheses follow from wf_r and are satisfiable *)
+Theorem counts_per_sample_stats_is_source_wf : forall binary rt, wf_r rt ->
+  compute_counts_per_sample_stats rt binary = r_stats binary rt.
+Proof. exact counts_per_sample_stats_bridge_wf. Qed.
+Print Assumptions counts_per_sample_stats_is_source_wf.
+Example counts_per_sample_stats_hyp_sat : NoDup (r_sids ex_rt) /\ dims_ok ex_rt /\
+  compute_counts_per_sample_stats ex_rt false = (0, 7, (7, 2), (14, 4), [(1, 5); (2, 2); (3, 0); (4, 7)])%Z.
+Proof. destruct ex_rt_wf as (_ & N & D & _). split; [exact N|]. split; [exact D|]. vm_compute. reflexivity. Qed.
